@@ -77,6 +77,24 @@ impl CountMinSketch {
     }
 }
 
+#[cfg(feature = "verif-hooks")]
+impl CountMinSketch {
+    /// Verification hook: `(mask, seeds (none), rows)`.
+    pub(crate) fn verif_state(
+        &self,
+    ) -> (
+        u64,
+        alloc::vec::Vec<u64>,
+        alloc::vec::Vec<alloc::vec::Vec<u8>>,
+    ) {
+        (
+            self.mask,
+            alloc::vec::Vec::new(),
+            self.rows.iter().map(|r| r.verif_bytes()).collect(),
+        )
+    }
+}
+
 #[cfg(test)]
 mod test {
     use crate::lfu::tinylfu::sketch::CountMinSketch;
